@@ -170,6 +170,7 @@ type sim struct {
 
 	classMemo map[string]string
 	created   map[int64][]string // block-db keys that did not exist before the save of height h
+	leakFloor int64              // heights up to here may have left garbage behind (interrupted prune)
 	pruneCtx  *pruneCtx          // the prune during which the current incarnation crashed
 	baseHole  int64              // base height found deleted (known-finding class), until a later prune moves the base
 }
@@ -574,6 +575,17 @@ func (s *sim) Apply(op simcore.Op) bool {
 		e.Logf("crash at point %d (%s) unsynced block=%d state=%d kept %d/%d", k, label, ub, us, kb, ks)
 		s.app.Crash()
 		s.restart(n.bdb.Image(kb), n.sdb.Image(ks), fmt.Sprintf("crash in %s at point %d (%s), kept %d/%d block-db and %d/%d state-db unsynced write groups", kind, k, label, kb, ub, ks, us))
+		if kind == "prune" {
+			// A prune interrupted after the base moved never deletes the rest of its batch: later
+			// prunes start at the new base. Not part of the property (the reported range is
+			// consistent); counted, and the leak check after later prunes skips those heights.
+			if b := s.live.bs.Base(); b > s.leakFloor {
+				s.leakFloor = b
+			}
+			if b := s.live.bs.Base(); b > 1 && s.live.bs.LoadBlockMeta(b-1) != nil {
+				e.Count("probe.garbage_below_base_after_prune_crash")
+			}
+		}
 		s.pruneCtx = nil
 		s.gc()
 	case "sweep":
